@@ -62,10 +62,16 @@ pub fn replay_file(path: &str) -> i32 {
 pub fn replay_case<H: HB>(c: &Case) -> Result<(), String> {
     println!("replaying {} on {} with hasher {}", c.prop, if c.double { "DoublePriorityQueue" } else { "PriorityQueue" }, c.hasher);
     println!("  root: {:?}", c.root);
+    if c.probe.as_deref() == Some("from_iter-differential") {
+        if let Root::FromIter(seq, _) = &c.root {
+            return crate::post::from_iter_differential::<H>(c.double, &c.universe, seq, true).map(|_| ()).map_err(|e| e.1);
+        }
+    }
     let mut q = make_root::<H>(c.double, &c.root, &c.universe)?;
     let mut unordered = false;
     let mut m = model_of(&q.snap());
-    for (i, op) in c.ops.iter().chain(c.last.iter()).enumerate() {
+    let last_is_step = c.probe.is_none();
+    for (i, op) in c.ops.iter().chain(c.last.iter().filter(|_| last_is_step)).enumerate() {
         crate::crash::set_case(|| c.clone());
         let ap = apply(&q, unordered, &m, op, &c.universe).map_err(|e| format!("step {i} {op:?}: {e}"))?;
         println!("  step {i}: {op:?} -> {:?}; contents {:?} heap {:?}", ap.ret, ap.snap.slots, ap.snap.heap);
